@@ -1,11 +1,9 @@
-import Model.UtilWire
+import Model.Handlers
 /-! line-protocol driver: one operation per line on stdin, one answer per line on stdout -/
-
-def handlers : List (List String → Option String) := [UtilWire.handle]
 
 def answer (line : String) : String :=
   let toks := (line.trimAscii.toString.splitOn " ").filter (· ≠ "")
-  match handlers.findSome? (· toks) with
+  match allHandlers.findSome? (· toks) with
   | some out => out
   | none => "bad-op"
 
